@@ -534,9 +534,14 @@ def stack_cause(stack, mat):
     return "+".join(sorted(causes)) or "none"
 
 
+RENDERED = []
+
+
 def render_oracle_check(chk, src):
     """configparser (non-strict) on the rendered text of one source == its abstract effect."""
     text = src_bytes(src).decode("utf-8", "surrogateescape")
+    if len(RENDERED) < 4000:
+        RENDERED.append(text)
     p = configparser.RawConfigParser(inline_comment_prefixes=(";",), strict=False)
     kind = "ok"
     try:
@@ -581,6 +586,72 @@ def strip_faults(stack, mat):
                     if c is not None:
                         files.append({"file": c})
     return {**stack, "files": files}
+
+
+# ------------------------------------------------------------------ INI syntax: model parse_ini vs configparser
+
+INI_LINES = ["[a]", "[b c]", "[a]b]", "[]", "[", "[a", "a]", "[a] ; c", "[a] # c", "  [a]", "k=v", "k = v", "k : v", "k:v", "K = V", "k",
+             "k é = Xé", " k = v", "  cont", "\tcont2", "", "   ", "# c", "; c", "  # ic", "  ; ic", "k = v ; c", "k = v;c", "k = v #c",
+             "k = ;c", "=v", " = v", ":", "k =", "k = ", "k = a = b", "k = a: b", "k: a = b", "x ;", ";x = 1", "a ; b = c", "k = v\r",
+             "k2 = w", "  more ; c", "  [notheader]", "   k3 = z", "garbage line", "%%%", "k = \\n esc", "k=\x0bv\x0c", "\x1ck = v"]
+
+
+def ini_observe(text):
+    p = configparser.RawConfigParser(inline_comment_prefixes=(";",), strict=False)
+    err = False
+    try:
+        p.read_string(text)
+    except configparser.MissingSectionHeaderError:
+        return None
+    except configparser.ParsingError:
+        err = True
+    return ({s: dict(p.items(s)) for s in p.sections() if p.items(s)}, err)
+
+
+def g_icase(text, obs, I):
+    chars = sorted({c for c in text if ord(c) >= 128})
+    tl = g_list([f"({ord(c)}, {I.s(c.lower())})" for c in chars])
+    if obs is None:
+        g = "None"
+    else:
+        cfg = g_list([f"({I.s(s)}, {g_list([f'({I.s(k)}, {I.s(v)})' for k, v in kv.items()])})" for s, kv in obs[0].items()])
+        g = f"(Some ({cfg}, {g_bool(obs[1])}))"
+    return f"({tl}, {I.s(text)}, {g})"
+
+
+def ini_stage(chk, texts, soups=1.0):
+    """Every rendered config file of this run plus random line soups: parse_ini == configparser."""
+    rng = chk.rng
+    n = int((600 if chk.tier == "quick" else 6000) * soups)
+    texts = list(texts)
+    for _ in range(n):
+        lines = [rng.choice(INI_LINES) for _ in range(rng.randint(1, 9))]
+        if rng.random() < 0.7:
+            lines.insert(0, rng.choice(["[a]", "[b c]", "[é]"]))
+        texts.append("\n".join(lines) + ("\n" if rng.random() < 0.5 else ""))
+    texts = [t for t in dict.fromkeys(texts) if "[DEFAULT]" not in t and "\u03a3" not in t]
+    per, ok = 300, True
+    shards = [texts[i:i + per] for i in range(0, len(texts), per)]
+    files = []
+    for shard in shards:
+        I = Interner()
+        terms = [g_icase(t, ini_observe(t), I) for t in shard]
+        files.append(vlib.COQ_HEADER + COQ_IMPORTS + "From Config Require Import Ini IniCases.\n" + I.header()
+                     + "Definition cases : list icase :=\n " + g_list(terms) + ".\n"
+                     + "Eval vm_compute in mismatches icase_ok cases.\n")
+    for si, (rc, outp) in enumerate(vlib.coq_eval_many(AREA, files, jobs=12)):
+        bad = vlib.parse_nat_list(outp)
+        if rc != 0 or bad is None:
+            ok = False
+            chk.corr_failure("ini", {"shard": si, "error": "coq evaluation failed"}, outp[-2000:])
+            continue
+        for i in bad:
+            ok = False
+            t = shards[si][i]
+            chk.corr_failure("ini", {"text": t, "configparser": repr(ini_observe(t))[:400]})
+    chk.count(len(texts), nontrivial_key=None)
+    chk.dist("ini:texts", len(texts))
+    chk.obligation("corr:ini", "correspondence", ok)
 
 
 # ------------------------------------------------------------------ main stage
@@ -816,4 +887,7 @@ def run(chk):
     import logging
 
     logging.disable(logging.CRITICAL)
+    RENDERED.clear()
     load_stage(chk)
+    if not chk.replay_case:
+        ini_stage(chk, RENDERED)
